@@ -174,6 +174,16 @@ func genNetModel(t *rapid.T, o modelOpts) NetModel {
 					m.TIncl = append(m.TIncl, ty)
 				}
 			}
+			if len(m.TIncl) > 0 && chance(t, "types-included-and-excluded", 8) {
+				// every included type is excluded as well ($script,~script): the rule matches no type at all
+				for _, ty := range m.TIncl {
+					if !inList(ty, m.TExcl) {
+						m.TExcl = append(m.TExcl, ty)
+					}
+				}
+			} else if len(m.TIncl) > 0 && len(m.TExcl) > 0 && chance(t, "one-type-both-ways", 8) {
+				m.TExcl = append(m.TExcl, m.TIncl[0])
+			}
 		}
 		if chance(t, "domain?", 2) {
 			n := rapid.IntRange(1, 6).Draw(t, "ndom")
